@@ -61,6 +61,9 @@ Fixpoint aeqb (a b : aff) : bool :=
   | x :: a', y :: b' => Qeq_bool x y && aeqb a' b'
   end.
 
+Definition acomb (cpi : Q) (l : list (Q * aff)) : aff :=
+  fold_right (fun ca acc => aadd (ascale (fst ca) (snd ca)) acc) (api cpi) l.
+
 Lemma Q2R_Qred q : Q2R (Qred q) = Q2R q.
 Proof. apply Qeq_eqR, Qred_correct. Qed.
 
